@@ -66,6 +66,7 @@ pub const GRAMMARS: &[(&str, &str)] = &[
     // Original(GenericParseTree), which must not be confused with each other
     ("go0-orig", "%start Expr\n%%\nExpr: Expr \"+\" Term | Term ;\nTerm: Term \"*\" Factor | Factor ;\nFactor: \"(\" Expr \")\" | \"INT\" ;\n"),
     ("go1-orig-other-rules", "%start Expr\n%%\nExpr: Term \"+\" Expr | Term ;\nTerm: Factor \"*\" Term | Factor ;\nFactor: \"(\" Expr \")\" | \"INT\" ;\n"),
+    ("g12-no-tokens", "%start Expr\n%%\nExpr -> u64: { 0 } ;\n"),
     ("g6-comment-only-change", "%start Expr\n%%\n// a comment\nExpr -> u64: Expr \"+\" Term { $1 + $3 } | Term { $1 } ;\nTerm -> u64: Term \"*\" Factor { $1 * $3 } | Factor { $1 } ;\nFactor -> u64: \"(\" Expr \")\" { $2 } | \"INT\" { 0 } ;\n"),
 ];
 pub const BROKEN_GRAMMARS: &[(&str, &str)] = &[
@@ -399,7 +400,7 @@ pub fn execute(exe: &Path, sc: &BScenario, dir: &Path) -> BReport {
                     parser: popts.clone(),
                     lexer: lopts.clone(),
                     flow: flow.clone(),
-                    token_map_dir: None,
+                    token_map_dir: Some(py.parent().unwrap().to_str().unwrap().into()),
                     fsize_limit: fault.as_ref().map(|f| f.1),
                     fsize_mode: fault.as_ref().map(|f| f.0.clone()),
                     prelude: vec![],
@@ -422,7 +423,7 @@ pub fn execute(exe: &Path, sc: &BScenario, dir: &Path) -> BReport {
                 lh = fnv_add(lh, format!("{oi}|{ok}|{crashed}|{clean_ok}|{rewritten_y}|{rewritten_l}|{:?}|{:?}", after_y.0.as_ref().map(|b| norm_hash(b, dir)), after_l.0.as_ref().map(|b| norm_hash(b, dir))).as_bytes());
                 match fault {
                     Some((m, _)) if fault_fired => {
-                        *rep.probes.entry(if m == "crash" { "builds_crashed_mid_write" } else { "builds_with_short_write_error" }).or_insert(0) += 1;
+                        *rep.probes.entry(if m == "crash" { "builds_crashed_mid_write" } else if m == "short" { "builds_failing_after_a_short_write" } else { "builds_with_short_write_error" }).or_insert(0) += 1;
                         if after_y.0.is_some() && after_y.0 != std::fs::read(clean.join("g.y.rs")).ok() {
                             *rep.probes.entry("torn_or_partial_parser_output_left_on_disk").or_insert(0) += 1;
                         }
@@ -433,8 +434,27 @@ pub fn execute(exe: &Path, sc: &BScenario, dir: &Path) -> BReport {
                 if fault.is_none() && ok != clean_ok {
                     add(&mut rep, "outcome-differs-from-clean-build", format!("op {oi}: incremental build succeeded: {ok}, clean build of the same sources and settings: {clean_ok} ({:?} / {:?})", res.as_ref().map(|r| r.error.chars().take(160).collect::<String>()), cres.as_ref().map(|r| r.error.chars().take(160).collect::<String>())), None, oi);
                 }
+                if res.as_ref().map_or(0, |r| r.short_writes) > 0 {
+                    *rep.probes.entry("short_writes_injected_without_error").or_insert(0) += 1;
+                }
                 if ok {
                     *rep.probes.entry("successful_builds").or_insert(0) += 1;
+                    // cargo re-runs a build script only for the paths it was told about, once it
+                    // has been told about any: a builder that announces one source must announce all
+                    let announced = res.as_ref().map(|r| r.rerun_if_changed.clone()).unwrap_or_default();
+                    if !announced.is_empty() {
+                        *rep.probes.entry("builds_that_print_rerun_if_changed").or_insert(0) += 1;
+                        for (what, pth) in [("grammar", &gy), ("lexer", &gl)] {
+                            if !announced.iter().any(|a| Path::new(a) == pth.as_path()) {
+                                add(&mut rep, "rerun-if-changed-incomplete", format!("op {oi}: the build prints cargo:rerun-if-changed for {:?} but not for the {what} source {}: cargo will not re-run the build script when it is edited", announced, pth.display()), None, oi);
+                            }
+                        }
+                    }
+                    // the token map generated next to the outputs (CTTokenMapBuilder)
+                    let (tm, ctm) = (std::fs::read(py.parent().unwrap().join("token_map.rs")).ok(), std::fs::read(clean.join("token_map.rs")).ok());
+                    if clean_ok && tm != ctm {
+                        add(&mut rep, "token-map-differs-from-clean-build", format!("op {oi}: out/token_map.rs ({}) differs from the one a clean build writes ({}); grammar {}", tm.as_ref().map_or("absent".into(), |b| format!("{} bytes", b.len())), ctm.as_ref().map_or("absent".into(), |b| format!("{} bytes", b.len())), gname.0), None, oi);
+                    }
                     // 1. byte-identical to the clean build
                     let cy = std::fs::read(clean.join("g.y.rs")).ok();
                     let cl = std::fs::read(clean.join("g.l.rs")).ok();
@@ -698,7 +718,8 @@ pub fn generate(r: &mut Rng, max_ops: usize) -> BScenario {
             _ => {
                 let fault = match r.below(100) {
                     0..=79 => None,
-                    80..=89 => Some(("error".to_string(), *r.pick(&[0u64, 100, 600, 2000, 5000, 9000, 20000]))),
+                    80..=86 => Some(("error".to_string(), *r.pick(&[0u64, 100, 600, 2000, 5000, 9000, 20000]))),
+                    87..=92 => Some(("short".to_string(), *r.pick(&[0u64, 100, 600, 2000, 5000, 9000, 20000]))),
                     _ => Some(("crash".to_string(), *r.pick(&[0u64, 100, 600, 2000, 5000, 9000, 20000]))),
                 };
                 Op::Build(fault)
@@ -1041,7 +1062,7 @@ pub fn check_main(tier: &str) -> i32 {
         seed,
         evaluations: count,
         distinct_nontrivial: t.digests.len() as u64,
-        rule: format!("history i of stream VERIF_SEED: <= {max_ops} operations from {{edit grammar ({} valid, 4 invalid variants, with/without %grmtools header), edit lexer (5 valid, 3 invalid), set a parser option ({} keys), set a lexer option ({} keys: every CTLexerBuilder setter except lexerkind), switch flow, tick 0/1ns/1us/1s/1h, touch, delete an output, build with no fault / short-write error / crash at byte n}}; after every build a clean build of the same sources and settings into an empty directory. One history in five reaches its sources through symbolic links (edits go to the target); one grammar has 220 tokens (a cache comment of several KiB). A further {} *layout histories* move the (unedited) sources between sub-directories of src/ and build with grammar_in_src_dir / lexer_in_src_dir into one persistent OUT_DIR and an empty one. Non-trivial = the history contains a successful build after a change to the parser's inputs; distinct = distinct operation sequence.", GRAMMARS.len() + 1, POPT_POOL.len(), LOPT_POOL.len(), count / 16),
+        rule: format!("history i of stream VERIF_SEED: <= {max_ops} operations from {{edit grammar ({} valid, 4 invalid variants, with/without %grmtools header), edit lexer (5 valid, 3 invalid), set a parser option ({} keys), set a lexer option ({} keys: every CTLexerBuilder setter except lexerkind), switch flow, tick 0/1ns/1us/1s/1h, touch, delete an output, build with no fault / short-write error / crash at byte n / one short write without error at byte n (libc `write` interposed in the child)}}; after every build a clean build of the same sources and settings into an empty directory (parser, lexer and the CTTokenMapBuilder module are compared; a build that prints cargo:rerun-if-changed for one source must print it for both). One history in five reaches its sources through symbolic links (edits go to the target); one grammar has 220 tokens (a cache comment of several KiB). A further {} *layout histories* move the (unedited) sources between sub-directories of src/ and build with grammar_in_src_dir / lexer_in_src_dir into one persistent OUT_DIR and an empty one. Non-trivial = the history contains a successful build after a change to the parser's inputs; distinct = distinct operation sequence.", GRAMMARS.len() + 1, POPT_POOL.len(), LOPT_POOL.len(), count / 16),
         samples: t.samples.clone(),
         extra,
         assumptions: vec!["mtimes are the simulator's clock; backward or coarse file-system clocks are not modelled".into(), "one build per child process (the builders refuse a second build to the same path in one process)".into(), "byte equality is unmasked: all children share one lrpar/lrlex build and hence one embedded build timestamp".into()],
